@@ -23,6 +23,13 @@ def sh(cmd, cwd=None, timeout=3600):
 
 def run_demo(mdir, meta):
     demo = os.path.join(mdir, "demo")
+    if os.path.exists(os.path.join(demo, "run.sh")):
+        rc, out = sh("sh run.sh", cwd=demo)
+        return rc, out[-1500:]
+    if os.path.exists(os.path.join(demo, "Cargo.toml")) and not os.path.exists(os.path.join(demo, "src", "main.rs")) \
+            and os.path.isdir(os.path.join(demo, "tests")):
+        rc, out = sh("cargo test --offline -q", cwd=demo)
+        return rc, out[-1500:]
     if os.path.exists(os.path.join(demo, "Cargo.toml")):
         rc, out = sh("cargo run --offline -q", cwd=demo)
         return rc, out[-1500:]
